@@ -98,6 +98,9 @@ func verif_harness_C14_json_independence() {
 	verif_assert(verifHeaderSame(t1.Header, snap1), "C14.json.earlier-target-unchanged-by-later-decode")
 	verif_assert(verifHeaderSame(hdr, hdrSnap), "C14.json.defaults-unchanged")
 	verif_assert(string(t2.Body) == "own" && string(t1.Body) == "body", "C14.json.default-body-only-when-none")
+	k2, x2 := t2.Header["K"], t2.Header["X"]
+	verif_assert(len(k2) == len(hdrSnap["K"])+1 && k2[len(k2)-1] == "two" && len(x2) == len(hdrSnap["X"])+1 && x2[len(x2)-1] == "y",
+		"C14.json.every-header-key-keeps-its-own-values")
 	snap2 := verifHeaderSnapshot(t2.Header)
 	verif_assert(tr(&t3) == nil, "C14.json.third-target-decodes")
 	verif_assert(verifHeaderSame(t1.Header, snap1) && verifHeaderSame(t2.Header, snap2) && verifHeaderSame(hdr, hdrSnap), "C14.json.earlier-targets-and-defaults-unchanged")
